@@ -73,10 +73,11 @@ def observe(cfg, variant=0):
     try:
         if cfg["kind"] == "grid":
             tuner = ForecastingGridSearchCV(proto, cv=cv, param_grid=grid, scoring=sc, refit=cfg["refit"],
-                                            n_jobs=None if variant % 2 == 0 else 2)
+                                            strategy=cfg.get("strat", "refit"), n_jobs=None if variant % 2 == 0 else 2)
         else:
             tuner = ForecastingRandomizedSearchCV(proto, cv=cv, param_distributions=grid, n_iter=len(cfg["tables"]),
-                                                  scoring=sc, refit=cfg["refit"], random_state=variant)
+                                                  scoring=sc, refit=cfg["refit"], strategy=cfg.get("strat", "refit"),
+                                                  random_state=variant)
         import joblib
         fitfh = [2, 3] if variant % 2 else None      # a horizon handed to fit that differs from the splitter's [1]
         with joblib.parallel_backend("threading"):   # threads: the stubs' logs live in this process
@@ -101,6 +102,8 @@ def observe(cfg, variant=0):
             w = [[e["first"], e["last"]] for e in log if e["table"] == t and e["last"] < n - 1]
             windows.append(w[:F] if cfg["nest"] != "mux" else w[:F])
         o = {"rows": rows, "best_index": inv[best_row] + 1,
+             # update calls the candidates received during the search (before the best one is refitted / updated below)
+             "updates": len([e for e in stubs.LOG[TAG] if e["ev"] == "update"]),
              "best_score": iround(F * float(tuner.best_score_)),
              "best_params": tabs.index(table_of(tuner.best_params_, cfg)) + 1,
              "windows": windows}
